@@ -3,11 +3,14 @@ package provider
 import (
 	"bufio"
 	"context"
+	"errors"
 	"io"
 	"strings"
 	"sync"
 
+	pkgerrors "github.com/pkg/errors"
 	"github.com/yandex/pandora/core"
+	"github.com/yandex/pandora/core/datasource"
 	"go.uber.org/zap"
 )
 
@@ -29,7 +32,12 @@ func HarnessC08DecodeProvider() {
 	passes := int(vNondetInt("passes", 0, vHi(3, 8)))
 	vAssume(limit != 0 || passes != 0)
 	lines := []string{"a", "b", "c"}
-	conf := DecodeProviderConfig{Queue: AmmoQueueConfig{AmmoQueueSize: 1}, Source: &hSrc{strings.Join(lines[:E], "\n") + "\n"},
+	// the data source: a model one, or the real inline/string source of core/datasource
+	var src core.DataSource = &hSrc{strings.Join(lines[:E], "\n") + "\n"}
+	if vNondetBool("inlineSource") {
+		src = datasource.NewInline(datasource.InlineConfig{Data: strings.Join(lines[:E], "\n") + "\n"})
+	}
+	conf := DecodeProviderConfig{Queue: AmmoQueueConfig{AmmoQueueSize: 1}, Source: src,
 		Limit: limit, Passes: passes}
 	newDec := func(deps core.ProviderDeps, src io.Reader) (AmmoDecoder, error) {
 		br := bufio.NewReader(src)
@@ -75,5 +83,77 @@ func HarnessC08DecodeProvider() {
 	vCheck("D2.run.returns.nil", runErr == nil)
 	vCheck("D3.run.finished", done)
 	vObserve("got", int64(got))
+	vReach("end")
+}
+
+type hFailSrc struct{ err error }
+
+func (s *hFailSrc) OpenSource() (io.ReadCloser, error) { return nil, s.err }
+
+// the generic decode provider failing at every stage (data source cannot be opened, decoder
+// cannot be constructed, an entry cannot be decoded): Run returns an error that carries the cause
+// and the ammo queue is closed, so that instances waiting in Acquire see the end of ammo instead of
+// blocking forever (a consumer still blocked would be a deadlock outcome here).
+func HarnessC08DecodeProviderFaults() {
+	vSpinIsViolation()
+	cause := errors.New("injected provider failure")
+	fault := vConcretize(vNondetInt("fault", 0, 3)) // 0 open, 1 decoder construction, 2 decode of entry k, 3 none
+	failAt := int(vConcretize(vNondetInt("failAt", 0, 2)))
+	lines := "a\nb\n"
+	var src core.DataSource = &hSrc{lines}
+	if fault == 0 {
+		src = &hFailSrc{cause}
+	}
+	conf := DecodeProviderConfig{Queue: AmmoQueueConfig{AmmoQueueSize: 1}, Source: src, Passes: 1}
+	newDec := func(deps core.ProviderDeps, src io.Reader) (AmmoDecoder, error) {
+		if fault == 1 {
+			return nil, cause
+		}
+		br := bufio.NewReader(src)
+		n := 0
+		return AmmoDecoderFunc(func(a core.Ammo) error {
+			if fault == 2 && n == failAt {
+				return cause
+			}
+			n++
+			l, err := br.ReadString('\n')
+			if err != nil {
+				return err
+			}
+			a.(*hLineAmmo).line = strings.TrimSpace(l)
+			return nil
+		}), nil
+	}
+	p := NewDecodeProvider(func() core.Ammo { return &hLineAmmo{} }, newDec, conf)
+	var runErr error
+	var wg sync.WaitGroup
+	wg.Add(1)
+	go func() {
+		defer wg.Done()
+		runErr = p.Run(context.Background(), core.ProviderDeps{Log: zap.NewNop()})
+	}()
+	got := 0
+	for {
+		a, ok := p.Acquire() // must end: the queue is closed whatever happened
+		if !ok {
+			break
+		}
+		got++
+		p.Release(a)
+		if got > 4 {
+			break
+		}
+	}
+	wg.Wait()
+	if fault == 3 {
+		vCheck("D6.no.fault.ok", runErr == nil && got == 2)
+	} else {
+		vCheck("D6.failure.reported.with.cause", runErr != nil && pkgerrors.Cause(runErr) == cause)
+		if fault == 2 {
+			vCheck("D6.entries.before.the.failure.delivered", got == failAt)
+		} else {
+			vCheck("D6.nothing.delivered", got == 0)
+		}
+	}
 	vReach("end")
 }
